@@ -45,7 +45,7 @@ Step(s) ==
              [] kind = "bound"   -> Fired(PushOn(r, "exec", s.bind[t.v]))
              [] kind = "free"    -> Fired(PushOn(r, "name", t.v))
              [] kind = "literal" ->
-                  IF t.k = "graph" /\ Len(r.graph) >= GraphCap THEN Fired(r)
+                  IF t.k = "graph" /\ Len(r.graph) >= r.cfg.graph_cap THEN Fired(r)
                   ELSE Fired(PushOn(r, LiteralField(t.k), t.v))]
 
 ---------------------------------------------------------------------------
